@@ -162,7 +162,7 @@ func locOf(m *spec.Method, name string) gen.Loc {
 		return gen.LocQuery
 	}
 	for _, r := range m.Routes {
-		if strings.Contains(r.Path, "{"+name+"}") {
+		if strings.Contains(r.Path, "{"+name+"}") || strings.Contains(r.Path, "{*"+name+"}") {
 			return gen.LocPath
 		}
 	}
@@ -196,9 +196,47 @@ func genPayload(t *verifsim.Tape, d *spec.Design, m *spec.Method) any {
 		}
 		o := gen.GenOpts{Loc: loc, AvoidZero: f.HasDef && !f.Required, NonEmpty: loc != gen.LocBody}
 		obj[f.Name] = gen.GenValid(t, d, f, o)
+		if sv, ok := obj[f.Name].(string); ok && isCatchAll(m, f.Name) {
+			obj[f.Name] = catchAllValue(sv)
+		} else if ok && loc == gen.LocPath && hasCatchAll(m) {
+			// the recorded defect (a '/' inside a {name} value is sent unescaped) would shift every later segment
+			// into the catch-all: it is exercised, and recorded, on the routes without one
+			obj[f.Name] = strings.ReplaceAll(sv, "/", "_")
+		}
 	}
 	oneCredentialPerCarrier(t, d, m, obj)
 	return obj
+}
+
+// isCatchAll reports whether attribute name is a {*name} path parameter of the method.
+func isCatchAll(m *spec.Method, name string) bool {
+	for _, r := range m.Routes {
+		if strings.Contains(r.Path, "{*"+name+"}") {
+			return true
+		}
+	}
+	return false
+}
+
+func hasCatchAll(m *spec.Method) bool {
+	for _, r := range m.Routes {
+		if strings.Contains(r.Path, "{*") {
+			return true
+		}
+	}
+	return false
+}
+
+// catchAllValue keeps the slashes of a drawn path value (they are path separators the caller put there) and
+// removes what makes a URL ambiguous rather than a value different: empty, "." and ".." segments.
+func catchAllValue(v string) string {
+	segs := strings.Split(v, "/")
+	for i, sg := range segs {
+		if sg == "" || sg == "." || sg == ".." {
+			segs[i] = "x" + sg
+		}
+	}
+	return strings.Join(segs, "/")
 }
 
 // sharedCarriers lists, per header that carries the credentials of several schemes, the attributes reading it.
